@@ -160,6 +160,11 @@ func (builder *builder[E]) DivUnchecked(i1, i2 frontend.Variable) frontend.Varia
 		return builder.mulConstant(i1.(expr.Term[E]), c2)
 	}
 	if i1Constant {
+		if c1.IsZero() {
+			// 0 / i2 == 0 for any i2 (0/0 included, see the method documentation):
+			// no need to constrain i2 to be invertible.
+			return 0
+		}
 		res := builder.Inverse(i2)
 		return builder.mulConstant(res.(expr.Term[E]), c1)
 	}
